@@ -152,7 +152,8 @@ def run_ride(spec, ctx):
 POLY_FUNCS = ["derivative", "gradient", "hessian", "poly_divmod", "poly_divide", "poly_remainder",
               "lead_exponent", "lead_coefficient", "sortable_proxy", "decompose", "isconstant",
               "set_dimensions", "align_polynomials", "align_exponents", "align_indeterminants",
-              "align_shape", "call", "equal", "not_equal", "str", "pickle", "aspolynomial", "clean"]
+              "align_shape", "call", "equal", "not_equal", "str", "pickle", "aspolynomial", "clean",
+              "boolpoly", "boolpoly", "astype_ops"]
 RAISERS = ["unknown_name", "bad_shapes", "duplicate_exponents", "tonumpy_nonconstant",
            "numeric_division", "matmul_scalar", "bad_axis", "double_name"]
 
@@ -175,6 +176,11 @@ def direct_case(g):
         a = g.poly(shape=shape, names=names, kind=kind, maxexp=3)
         b = g.poly(shape=rng.choice([shape, ()]), names=names, kind=kind, maxexp=2, allow_views=False)
         case = {"kind": "polyfunc", "op": rng.choice(POLY_FUNCS), "operands": [a, b], "kw": {}}
+        if case["op"] == "boolpoly":
+            a = g.poly(shape=shape, names=names, kind="bool", maxexp=2, nterms=rng.choice([2, 3, 4]))
+            b = g.poly(shape=rng.choice([shape, ()]), names=names, kind="bool", maxexp=2,
+                       allow_views=False)
+            case["operands"] = [a, b]
     else:
         shape = g.shape(2)
         a = g.poly(shape=shape, kind="int", maxexp=2)
@@ -210,6 +216,21 @@ def call_polyfunc(numpoly, name, a, b):
         return pickle.loads(pickle.dumps(a))
     if name == "aspolynomial":
         return numpoly.aspolynomial(a), numpoly.polynomial(a), numpoly.aspolynomial(a, dtype=float)
+    if name == "boolpoly":
+        # polynomials with bool coefficients (dtype-specific code paths)
+        return (numpoly.any(a), numpoly.all(a), numpy.any(a, axis=0) if a.ndim else None,
+                numpoly.count_nonzero(a), numpoly.nonzero(a) if a.ndim else None,
+                numpoly.logical_and(a, b), numpoly.logical_or(a, b), numpoly.where(a, b, a),
+                a == b, numpoly.isconstant(a), str(a))
+    if name == "astype_ops":
+        out = []
+        for dtype in ("bool", "int8", "float32", "complex128", "uint32"):
+            c = a.astype(dtype)
+            before = snapshot(c)
+            out.append((numpoly.any(c), numpoly.sum(c), c + c, c * c, abs(c) if dtype != "bool" else c))
+            if changed(before, snapshot(c)):
+                raise AssertionError(f"argument of dtype {dtype} modified")
+        return out
     if name == "clean":
         return numpoly.clean_attributes(a), numpoly.clean_attributes(a, retain_names=False)
     raise ValueError(name)
